@@ -68,13 +68,33 @@ type errCtx struct {
 	al map[ssa.Value]bool
 }
 
+// loadSeesStore reports whether the load u of an alias cell reads the value
+// stored from e: the store of e precedes it in the same block with no other
+// store to the cell in between.
+func (x *errCtx) loadSeesStore(u *ssa.UnOp) bool {
+	b := u.Block()
+	if b == nil {
+		return false
+	}
+	seen := false
+	for _, in := range b.Instrs {
+		if in == ssa.Instruction(u) {
+			return seen
+		}
+		if st, ok := in.(*ssa.Store); ok && st.Addr == u.X {
+			seen = st.Val == x.e
+		}
+	}
+	return false
+}
+
 func (x *errCtx) is(v ssa.Value) bool {
 	v = stripIface(v)
 	if v == x.e {
 		return true
 	}
 	if u, ok := v.(*ssa.UnOp); ok && u.Op == token.MUL && x.al[u.X] {
-		return true
+		return x.loadSeesStore(u)
 	}
 	if ph, ok := v.(*ssa.Phi); ok {
 		for _, ed := range ph.Edges {
